@@ -32,6 +32,8 @@ CONSTANTS Scns,        \* set of scenario records (same shape as the traces' scn
           MaxB,        \* batch numbers 1..MaxB
           MaxUser,     \* how many times the user runs the documented recovery
           Monitor,     \* FALSE: m is frozen (liveness configurations)
+          FaultKinds,  \* subset of {"kill", "nodekill", "sbatch", "squeue"}: which injected faults are explored
+          MaxFaults,   \* at most this many injected faults per behaviour
           Log,         \* TRUE: keep path/elog (cover and simulation configurations; hidden by VIEW)
           Fixed        \* set of findings repaired in the modelled tree, e.g. {"F1"}; the pinned defects stay expressible
 
@@ -53,11 +55,12 @@ VARIABLES
   jp,               \* job processes: [job -> "none"|"running"|"exited"]
   procs,            \* [Slots -> process record]
   npid, nuser, ended,
+  nfault,           \* injected faults so far
   m,                \* the monitor
   path, elog        \* history (only when Log): action labels taken, events emitted
 
-vars == <<S, cfg, js, marker, bfile, hs, nodeFile, processed, jp, procs, npid, nuser, ended, m, path, elog>>
-implvars == <<S, cfg, js, marker, bfile, hs, nodeFile, processed, jp, procs, nuser, ended>>
+vars == <<S, cfg, js, marker, bfile, hs, nodeFile, processed, jp, procs, npid, nuser, ended, nfault, m, path, elog>>
+implvars == <<S, cfg, js, marker, bfile, hs, nodeFile, processed, jp, procs, nuser, ended, nfault>>
 
 J == JobsOf(S)
 NoFile == [jobs |-> <<>>, hb |-> <<>>]
@@ -121,7 +124,7 @@ Init ==
                 THEN [Idle EXCEPT !.kind = "submit-jobs", !.pc = "poll", !.pid = 1,
                                   !.lcfg = InitCfg("login"), !.wcfg = InitCfg("login"), !.ljs = InitJs(S), !.lbidx = 1]
                 ELSE Idle]
-  /\ npid = 1 /\ nuser = 0 /\ ended = FALSE
+  /\ npid = 1 /\ nuser = 0 /\ ended = FALSE /\ nfault = 0
   /\ m = IF Monitor
            THEN MonSteps(S, MonInit(S),
                   << EvProc(1, "submit-jobs", FALSE, -1),
@@ -134,6 +137,7 @@ Init ==
            ELSE MonInit(S)
   /\ path = <<>> /\ elog = <<>>
 
+CanFault(k) == k \in FaultKinds /\ nfault < MaxFaults /\ ~ended
 P(s) == procs[s]
 Set(s, rec) == procs' = [procs EXCEPT ![s] = rec]
 IsSubmitterKind(k) == k \in {"submit-jobs", "try-submit-jobs"}
@@ -158,15 +162,21 @@ Promote(s) ==
                                    !.lcfg = c1, !.wcfg = c1, !.ljs = js, !.lbidx = js.bidx, !.act = js.ids])
             /\ Feed(<<"Promote", s, 0>>, <<EvStatus(P(s).pid, c1, js, marker, nodeFile, processed),
                       EvPromote(P(s).pid, host, TRUE, "", host, FALSE)>>)
-  /\ UNCHANGED <<S, js, marker, bfile, hs, nodeFile, processed, jp, npid, nuser, ended>>
+  /\ UNCHANGED <<S, js, marker, bfile, hs, nodeFile, processed, jp, npid, nuser, ended, nfault>>
 
 \* ---------------------------------------------------------------- R3 poll the scheduler once
 Poll(s) ==
   /\ P(s).pc = "poll"
-  /\ IF P(s).ljs.ids = {}
-       THEN Set(s, [P(s) EXCEPT !.pc = "glob", !.act = {}]) /\ Feed(<<"Poll", s, Cardinality(P(s).ljs.ids)>>, <<>>)
-       ELSE /\ Set(s, [P(s) EXCEPT !.pc = "glob", !.act = {b \in P(s).ljs.ids : hs[b] \in {"pending", "running"}}])
-            /\ Feed(<<"Poll", s, Cardinality(P(s).ljs.ids)>>, <<[e |-> "squeue", ok |-> TRUE, pid |-> P(s).pid]>>)
+  /\ \/ /\ IF P(s).ljs.ids = {}
+            THEN Set(s, [P(s) EXCEPT !.pc = "glob", !.act = {}]) /\ Feed(<<"Poll", s, 0>>, <<>>)
+            ELSE /\ Set(s, [P(s) EXCEPT !.pc = "glob", !.act = {b \in P(s).ljs.ids : hs[b] \in {"pending", "running"}}])
+                 /\ Feed(<<"Poll", s, Cardinality(P(s).ljs.ids)>>, <<[e |-> "squeue", ok |-> TRUE, pid |-> P(s).pid]>>)
+        /\ UNCHANGED nfault
+     \/ \* the status query fails on all 7 attempts: ExecutionError before anything else was touched -> demote
+        /\ CanFault("squeue") /\ P(s).ljs.ids # {}
+        /\ nfault' = nfault + 1
+        /\ Set(s, [P(s) EXCEPT !.pc = "demote", !.exc = "ExecutionError"])
+        /\ Feed(<<"PollFail", s, 7>>, [k \in 1..7 |-> [e |-> "squeue", ok |-> FALSE, pid |-> P(s).pid]])
   /\ UNCHANGED <<S, cfg, js, marker, bfile, hs, nodeFile, processed, jp, npid, nuser, ended>>
 
 \* ---------------------------------------------------------------- R4 collection
@@ -180,7 +190,7 @@ Glob(s) ==
             /\ Feed(<<"Glob", s, 0>>, <<EvRows(nodeFile, processed), [e |-> "collected", rows |-> <<>>]>>)
        ELSE /\ Set(s, [P(s) EXCEPT !.pc = "move", !.todo = todo, !.got = <<>>])
             /\ Feed(<<"Glob", s, 0>>, <<>>)
-  /\ UNCHANGED <<S, cfg, js, marker, bfile, hs, nodeFile, processed, jp, npid, nuser, ended>>
+  /\ UNCHANGED <<S, cfg, js, marker, bfile, hs, nodeFile, processed, jp, npid, nuser, ended, nfault>>
 
 Move(s, b) ==
   /\ P(s).pc = "move" /\ b \in P(s).todo
@@ -191,7 +201,7 @@ Move(s, b) ==
      /\ processed' = pr /\ nodeFile' = nf
      /\ Set(s, [P(s) EXCEPT !.todo = @ \ {b}, !.got = got1, !.pc = IF last THEN "cancel" ELSE "move"])
      /\ Feed(<<"Move", s, b>>, <<EvRows(nf, pr)>> \o (IF last THEN <<EvRows(nf, pr), [e |-> "collected", rows |-> got1]>> ELSE <<>>))
-  /\ UNCHANGED <<S, cfg, js, marker, bfile, hs, jp, npid, nuser, ended>>
+  /\ UNCHANGED <<S, cfg, js, marker, bfile, hs, jp, npid, nuser, ended, nfault>>
 
 \* one iteration of the `while need_to_rerun` loop body after process_results() returned
 CancelPass(s) ==
@@ -217,7 +227,7 @@ CancelPass(s) ==
         /\ Set(s, [p EXCEPT !.ljs = ljs1, !.newly = newly, !.canc = @ \o cseq, !.pending = crows, !.got = <<>>,
                             !.pc = IF crows # <<>> THEN "glob" ELSE "marker"])
         /\ Feed(<<"CancelPass", s, Len(crows)>>, Zip(1))
-  /\ UNCHANGED <<S, cfg, js, marker, bfile, hs, nodeFile, jp, npid, nuser, ended>>
+  /\ UNCHANGED <<S, cfg, js, marker, bfile, hs, nodeFile, jp, npid, nuser, ended, nfault>>
 
 \* ---------------------------------------------------------------- R5 submitter.lock
 MarkerTouch(s) ==
@@ -226,7 +236,7 @@ MarkerTouch(s) ==
        THEN Set(s, [P(s) EXCEPT !.pc = "demote", !.exc = "Exception"]) /\ UNCHANGED marker
        ELSE marker' = TRUE /\ Set(s, [P(s) EXCEPT !.pc = "group", !.gi = 1, !.subm = <<>>, !.blkd = {}])
   /\ Feed(<<"MarkerTouch", s, 0>>, <<>>)
-  /\ UNCHANGED <<S, cfg, js, bfile, hs, nodeFile, processed, jp, npid, nuser, ended>>
+  /\ UNCHANGED <<S, cfg, js, bfile, hs, nodeFile, processed, jp, npid, nuser, ended, nfault>>
 
 \* ---------------------------------------------------------------- R6 batches
 QueueFull(p) == S.maxnodes > 0 /\ Cardinality(p.act) >= S.maxnodes
@@ -246,7 +256,7 @@ NextGroup(s) ==
               THEN Set(s, [p EXCEPT !.gi = @ + 1])
               ELSE Set(s, [p EXCEPT !.pc = "batch", !.avail = AvailFor(p, p.gi)])
   /\ Feed(<<"NextGroup", s, 0>>, <<>>)
-  /\ UNCHANGED <<S, cfg, js, marker, bfile, hs, nodeFile, processed, jp, npid, nuser, ended>>
+  /\ UNCHANGED <<S, cfg, js, marker, bfile, hs, nodeFile, processed, jp, npid, nuser, ended, nfault>>
 
 \* one iteration of `while not queue.is_full() and available_jobs:` -- _make_batch, files, sbatch
 SubmitBatch(s) ==
@@ -258,7 +268,7 @@ SubmitBatch(s) ==
      IN IF QueueFull(p) \/ p.avail = <<>>
           THEN /\ Set(s, [p EXCEPT !.pc = "group", !.gi = @ + 1, !.avail = <<>>])
                /\ Feed(<<"SubmitBatch", s, 0>>, <<>>)
-               /\ UNCHANGED <<bfile, hs>>
+               /\ UNCHANGED <<bfile, hs, nfault>>
           ELSE LET r == MakeBatch(PP, p.avail)
                    b == p.lbidx
                    hb == [k \in 1..Len(r.batch) |-> SeqOf(p.ljs.rem[r.batch[k]])]
@@ -266,16 +276,42 @@ SubmitBatch(s) ==
                IN IF r.batch = <<>>
                     THEN /\ Set(s, [p EXCEPT !.avail = r.rest, !.blkd = @ \cup r.blocked])
                          /\ Feed(<<"SubmitBatch", s, 0>>, <<>>)
-                         /\ UNCHANGED <<bfile, hs>>
+                         /\ UNCHANGED <<bfile, hs, nfault>>
                     ELSE /\ b \in B          \* the model is bounded to MaxB batches
                          /\ bfile' = [bfile EXCEPT ![b] = [jobs |-> r.batch, hb |-> hb]]
                          /\ hs' = [hs EXCEPT ![b] = "pending"]
+                         /\ UNCHANGED nfault
                          /\ Set(s, [p EXCEPT !.avail = r.rest, !.blkd = @ \cup r.blocked, !.subm = @ \o r.batch,
                                              !.lbidx = b + 1, !.act = @ \cup {b}])
                          /\ Feed(<<"SubmitBatch", s, 1>>, << [e |-> "cfgbatch", b |-> b, rewrite |-> (bfile[b] # NoFile), jobs |-> r.batch, hb |-> hb,
                                       rows |-> rowsNow],
                                     [e |-> "sbatch", ok |-> TRUE, b |-> b, active |-> Active(hs) + 1, jobs |-> r.batch,
                                       hb |-> hb, rows |-> rowsNow, opts |-> g.opts, run |-> g.run] >>)
+  /\ UNCHANGED <<S, cfg, js, marker, nodeFile, processed, jp, npid, nuser, ended>>
+
+\* the same iteration when sbatch fails on all 7 attempts: the batch is not outstanding, its jobs are still recorded as
+\* submitted (AsyncHpcSubmitter.run returns ERROR; "TODO: cancel or fail all jobs in the batch")
+SubmitBatchFail(s) ==
+  /\ P(s).pc = "batch" /\ CanFault("sbatch")
+  /\ LET p == P(s)
+         g == GroupRec(p.gi)
+         PP == [rem |-> p.ljs.rem, est |-> S.est, tb |-> g.tb, tryadd |-> g.tryadd, cap |-> g.cap, size |-> g.size,
+                repaired |-> Repaired]
+     IN /\ ~QueueFull(p) /\ p.avail # <<>>
+        /\ LET r == MakeBatch(PP, p.avail)
+               b == p.lbidx
+               hb == [k \in 1..Len(r.batch) |-> SeqOf(p.ljs.rem[r.batch[k]])]
+               rowsNow == SeqOf(NamesOnDisk(nodeFile, processed))
+               sb == [e |-> "sbatch", ok |-> FALSE, b |-> b, active |-> Active(hs), jobs |-> r.batch,
+                      hb |-> hb, rows |-> rowsNow, opts |-> g.opts, run |-> g.run]
+           IN /\ r.batch # <<>> /\ b \in B
+              /\ nfault' = nfault + 1
+              /\ bfile' = [bfile EXCEPT ![b] = [jobs |-> r.batch, hb |-> hb]]
+              /\ hs' = [hs EXCEPT ![b] = "failed"]
+              /\ Set(s, [p EXCEPT !.avail = r.rest, !.blkd = @ \cup r.blocked, !.subm = @ \o r.batch, !.lbidx = b + 1])
+              /\ Feed(<<"SubmitBatchFail", s, b>>,
+                      <<[e |-> "cfgbatch", b |-> b, rewrite |-> (bfile[b] # NoFile), jobs |-> r.batch, hb |-> hb, rows |-> rowsNow]>>
+                      \o [k \in 1..7 |-> sb])
   /\ UNCHANGED <<S, cfg, js, marker, nodeFile, processed, jp, npid, nuser, ended>>
 
 \* ---------------------------------------------------------------- R7 persist (Cluster._update_job_status under the lock)
@@ -301,7 +337,7 @@ Persist(s) ==
             ELSE /\ cfg' = lcfg2 /\ js' = ljs1
                  /\ Set(s, [p EXCEPT !.pc = "check", !.lcfg = lcfg2, !.wcfg = lcfg2, !.ljs = ljs1])
                  /\ Feed(<<"Persist", s, IF need THEN 1 ELSE 0>>, <<EvStatus(p.pid, lcfg2, ljs1, marker, nodeFile, processed)>>)
-  /\ UNCHANGED <<S, marker, bfile, hs, nodeFile, processed, jp, npid, nuser, ended>>
+  /\ UNCHANGED <<S, marker, bfile, hs, nodeFile, processed, jp, npid, nuser, ended, nfault>>
 
 \* ---------------------------------------------------------------- R8/R9
 CheckComplete(s) ==
@@ -311,14 +347,14 @@ CheckComplete(s) ==
          force == ~allDone /\ p.ljs.ids = {}
      IN Set(s, [p EXCEPT !.pc = "unmark", !.done = allDone \/ force])
   /\ Feed(<<"CheckComplete", s, 0>>, <<>>)
-  /\ UNCHANGED <<S, cfg, js, marker, bfile, hs, nodeFile, processed, jp, npid, nuser, ended>>
+  /\ UNCHANGED <<S, cfg, js, marker, bfile, hs, nodeFile, processed, jp, npid, nuser, ended, nfault>>
 
 MarkerRemove(s) ==
   /\ P(s).pc = "unmark"
   /\ marker' = FALSE
   /\ Set(s, [P(s) EXCEPT !.pc = IF P(s).done THEN "summary" ELSE "demote"])
   /\ Feed(<<"MarkerRemove", s, 0>>, <<>>)
-  /\ UNCHANGED <<S, cfg, js, bfile, hs, nodeFile, processed, jp, npid, nuser, ended>>
+  /\ UNCHANGED <<S, cfg, js, bfile, hs, nodeFile, processed, jp, npid, nuser, ended, nfault>>
 
 \* ---------------------------------------------------------------- R10 completion
 ResRow(r) == <<r[1], IF r[2] = "0" THEN 0 ELSE 1, r[3], r[4], r[5], r[6]>>
@@ -333,7 +369,7 @@ Summary(s) ==
      IN Feed(<<"Summary", s, 0>>, <<EvRows(nodeFile, processed),
                [e |-> "summary", res |-> res, missing |-> missing, tally |-> <<nS, nF, nC, Len(missing)>>]>>)
   /\ Set(s, [P(s) EXCEPT !.pc = "markcomplete"])
-  /\ UNCHANGED <<S, cfg, js, marker, bfile, hs, nodeFile, processed, jp, npid, nuser, ended>>
+  /\ UNCHANGED <<S, cfg, js, marker, bfile, hs, nodeFile, processed, jp, npid, nuser, ended, nfault>>
 
 MarkComplete(s) ==
   /\ P(s).pc = "markcomplete"
@@ -344,7 +380,7 @@ MarkComplete(s) ==
             /\ cfg' = c1
             /\ Set(s, [p EXCEPT !.pc = "demote", !.lcfg = c1, !.wcfg = c1])
             /\ Feed(<<"MarkComplete", s, 0>>, <<EvStatus(p.pid, c1, js, marker, nodeFile, processed)>>)
-  /\ UNCHANGED <<S, js, marker, bfile, hs, nodeFile, processed, jp, npid, nuser, ended>>
+  /\ UNCHANGED <<S, js, marker, bfile, hs, nodeFile, processed, jp, npid, nuser, ended, nfault>>
 
 \* ---------------------------------------------------------------- R11 demotion (the `finally` of every path)
 Demote(s) ==
@@ -355,7 +391,7 @@ Demote(s) ==
      /\ procs' = Gone(s, procs)
      /\ Feed(<<"Demote", s, 0>>, <<EvStatus(p.pid, c1, js, marker, nodeFile, processed),
                                    EvExit(p.pid, p.kind, IF p.exc # "" THEN 1 ELSE 0, p.exc)>>)
-  /\ UNCHANGED <<S, js, marker, bfile, hs, nodeFile, processed, jp, npid, nuser, ended>>
+  /\ UNCHANGED <<S, js, marker, bfile, hs, nodeFile, processed, jp, npid, nuser, ended, nfault>>
 
 \* the runner's `jade try-submit-jobs` returned: run-jobs exits, the batch leaves the queue
 NodeEnd(s) ==
@@ -364,7 +400,7 @@ NodeEnd(s) ==
      /\ hs' = h1
      /\ Set(s, Idle)
      /\ Feed(<<"NodeEnd", s, 0>>, <<EvExit(P(s).pid, "run-jobs", 0, ""), [e |-> "hpc", what |-> "end", b |-> s, active |-> Active(h1)]>>)
-  /\ UNCHANGED <<S, cfg, js, marker, bfile, nodeFile, processed, jp, npid, nuser, ended>>
+  /\ UNCHANGED <<S, cfg, js, marker, bfile, nodeFile, processed, jp, npid, nuser, ended, nfault>>
 
 \* ---------------------------------------------------------------- the HPC and the nodes
 StartBatch(b) ==
@@ -379,7 +415,7 @@ StartBatch(b) ==
                                         !.depth = IF Len(jobs) < maxw THEN Len(jobs) ELSE maxw,
                                         !.nrem = [k \in 1..Len(jobs) |-> ToSet(bfile[b].hb[k])]])
         /\ Feed(<<"StartBatch", b, 0>>, <<[e |-> "hpc", what |-> "start", b |-> b, active |-> Active(h1)], EvProc(npid + 1, "run-jobs", FALSE, b)>>)
-  /\ UNCHANGED <<S, cfg, js, marker, bfile, nodeFile, processed, jp, nuser, ended>>
+  /\ UNCHANGED <<S, cfg, js, marker, bfile, nodeFile, processed, jp, nuser, ended, nfault>>
 
 \* start queued jobs into free slots, in queue order, skipping blocked ones (JobQueue.submit / process_queue)
 \* returns [queue, outst, started (sequence)]
@@ -407,13 +443,13 @@ NodeInit(s) ==
      IN /\ Set(s, [p EXCEPT !.pc = "nwait", !.queue = r.queue, !.outst = r.outst, !.nrem = nremF])
         /\ jp' = [j \in J |-> IF j \in ToSet(r.started) THEN "running" ELSE jp[j]]
         /\ Feed(<<"NodeInit", s, Len(r.started)>>, LaunchEvents(p.pid, p.b, r.started, 0, SeqOf(NamesOnDisk(nodeFile, processed))))
-  /\ UNCHANGED <<S, cfg, js, marker, bfile, hs, nodeFile, processed, npid, nuser, ended>>
+  /\ UNCHANGED <<S, cfg, js, marker, bfile, hs, nodeFile, processed, npid, nuser, ended, nfault>>
 
 JobExit(j) ==
-  /\ jp[j] = "running"
+  /\ j \in J /\ jp[j] = "running"
   /\ jp' = [jp EXCEPT ![j] = "exited"]
   /\ Feed(<<"JobExit", j, 0>>, <<[e |-> "jobexit", job |-> j, rc |-> S.rc[j]]>>)
-  /\ UNCHANGED <<S, cfg, js, marker, bfile, hs, nodeFile, processed, procs, npid, nuser, ended>>
+  /\ UNCHANGED <<S, cfg, js, marker, bfile, hs, nodeFile, processed, procs, npid, nuser, ended, nfault>>
 
 \* JobQueue._check_completions as a fixpoint.  st = [outst, queue, nrem, failed, rows (appended, in order), fin (set)]
 \* isDoneF(j): the job's process has exited, or the job was canceled by this queue
@@ -468,7 +504,7 @@ NodePoll(s) ==
                                   !.pc = IF r.queue = <<>> /\ r.outst = <<>> THEN "ntry" ELSE "nwait"])
               /\ Feed(<<"NodePoll", s, Len(c.rows) + Len(r.started)>>, RowEvents(1, nodeFile[p.b])
                       \o LaunchEvents(p.pid, p.b, r.started, Len(c.outst), SeqOf(NamesOnDisk(nf, processed))))
-  /\ UNCHANGED <<S, cfg, js, marker, bfile, hs, processed, npid, nuser, ended>>
+  /\ UNCHANGED <<S, cfg, js, marker, bfile, hs, processed, npid, nuser, ended, nfault>>
 
 \* all jobs of the batch ended: the runner runs `jade try-submit-jobs` and waits for it
 NodeTry(s) ==
@@ -477,7 +513,36 @@ NodeTry(s) ==
   /\ procs' = [procs EXCEPT ![s].pc = "nwaittry",
                             ![TrySlot(s)] = [Idle EXCEPT !.kind = "try-submit-jobs", !.pc = "promote", !.pid = npid + 1, !.b = s]]
   /\ Feed(<<"NodeTry", s, 0>>, <<EvProc(npid + 1, "try-submit-jobs", TRUE, s)>>)
-  /\ UNCHANGED <<S, cfg, js, marker, bfile, hs, nodeFile, processed, jp, nuser, ended>>
+  /\ UNCHANGED <<S, cfg, js, marker, bfile, hs, nodeFile, processed, jp, nuser, ended, nfault>>
+
+
+\* ---------------------------------------------------------------- injected faults (FaultKinds, MaxFaults)
+HoldsRole(s) == IsSubmitterKind(P(s).kind) /\ P(s).pc \notin {"promote", "idle", "exit"}
+
+\* SIGKILL of a submitter-type process between two of its visible operations: it disappears; whatever it wrote stays
+\* (submitter field, submitter.lock, batches handed to the HPC but not yet persisted)
+Kill(s) ==
+  /\ CanFault("kill") /\ IsSubmitterKind(P(s).kind)
+  /\ nfault' = nfault + 1
+  /\ procs' = Gone(s, procs)
+  /\ Feed(<<"Kill", s, 0>>, <<[e |-> "kill", pid |-> P(s).pid]>>)
+  /\ UNCHANGED <<S, cfg, js, marker, bfile, hs, nodeFile, processed, jp, npid, nuser, ended>>
+
+\* the node of a running batch disappears (killed, walltime): runner, its nested try-submit-jobs and its job processes die;
+\* rows already appended stay
+NodeKill(b) ==
+  /\ CanFault("nodekill") /\ hs[b] = "running" /\ P(RunSlot(b)).kind = "run-jobs"
+  /\ nfault' = nfault + 1
+  /\ LET h1 == [hs EXCEPT ![b] = "killed"]
+         tryAlive == P(TrySlot(b)).kind # "none"
+         bj == ToSet(bfile[b].jobs)
+         evs == (IF tryAlive THEN <<[e |-> IF HoldsRole(TrySlot(b)) THEN "kill" ELSE "nodekill", pid |-> P(TrySlot(b)).pid]>> ELSE <<>>)
+                \o <<[e |-> "nodekill", pid |-> P(RunSlot(b)).pid], [e |-> "hpc", what |-> "kill", b |-> b, active |-> Active(h1)]>>
+     IN /\ hs' = h1
+        /\ procs' = [procs EXCEPT ![RunSlot(b)] = Idle, ![TrySlot(b)] = Idle]
+        /\ jp' = [j \in J |-> IF j \in bj /\ jp[j] \in {"running", "exited"} THEN "none" ELSE jp[j]]
+        /\ Feed(<<"NodeKill", b, 0>>, evs)
+  /\ UNCHANGED <<S, cfg, js, marker, bfile, nodeFile, processed, npid, nuser, ended>>
 
 \* ---------------------------------------------------------------- the user
 Quiescent == /\ \A s \in Slots : P(s).kind = "none"
@@ -489,30 +554,32 @@ UserTry ==
   /\ npid' = npid + 1 /\ nuser' = nuser + 1
   /\ Set(LOGIN, [Idle EXCEPT !.kind = "try-submit-jobs", !.pc = "promote", !.pid = npid + 1])
   /\ Feed(<<"UserTry", 0, 0>>, <<EvProc(npid + 1, "try-submit-jobs", FALSE, -1)>>)
-  /\ UNCHANGED <<S, cfg, js, marker, bfile, hs, nodeFile, processed, jp, ended>>
+  /\ UNCHANGED <<S, cfg, js, marker, bfile, hs, nodeFile, processed, jp, ended, nfault>>
 
 \* the run is over (complete, or the user gave up): final checks of the monitor
 End ==
   /\ Quiescent /\ ~ended /\ (cfg.complete \/ nuser >= MaxUser)
   /\ ended' = TRUE
   /\ Feed(<<"End", 0, 0>>, <<[e |-> "end", full |-> TRUE]>>)
-  /\ UNCHANGED <<S, cfg, js, marker, bfile, hs, nodeFile, processed, jp, procs, npid, nuser>>
+  /\ UNCHANGED <<S, cfg, js, marker, bfile, hs, nodeFile, processed, jp, procs, npid, nuser, nfault>>
 
 SubStep(s) == \/ Promote(s) \/ Poll(s) \/ Glob(s) \/ (\E b \in B : Move(s, b)) \/ CancelPass(s) \/ MarkerTouch(s)
-              \/ NextGroup(s) \/ SubmitBatch(s) \/ Persist(s) \/ CheckComplete(s) \/ MarkerRemove(s)
+              \/ NextGroup(s) \/ SubmitBatch(s) \/ SubmitBatchFail(s) \/ Persist(s) \/ CheckComplete(s) \/ MarkerRemove(s)
               \/ Summary(s) \/ MarkComplete(s) \/ Demote(s)
 NodeStep(s) == NodeInit(s) \/ NodePoll(s) \/ NodeTry(s) \/ NodeEnd(s)
 
-Next == \/ \E s \in Slots : SubStep(s) \/ NodeStep(s)
+Next == \/ \E s \in Slots : SubStep(s) \/ NodeStep(s) \/ Kill(s)
+        \/ \E b \in B : NodeKill(b)
         \/ \E b \in B : StartBatch(b)
         \/ \E j \in J : JobExit(j)
         \/ UserTry
         \/ End
 
 Spec == Init /\ [][Next]_vars
+AllJobNames == UNION {{Sc.jobs[k] : k \in 1..Len(Sc.jobs)} : Sc \in Scns}
 FairSpec == Spec /\ \A s \in Slots : WF_vars(SubStep(s) \/ NodeStep(s))
                  /\ \A b \in B : WF_vars(StartBatch(b))
-                 /\ \A j \in ToSet(UNION {ToSet(Sc.jobs) : Sc \in Scns}) : WF_vars(JobExit(j))
+                 /\ \A j \in AllJobNames : WF_vars(JobExit(j))
                  /\ WF_vars(UserTry)
 
 \* history that does not carry behaviour is hidden from the state space
